@@ -135,6 +135,7 @@ void prop_gen(Ctx &c) {
 		cs.nkeys = kc == 0 ? 1 : kc == 1 ? 2 : kc == 2 ? 7 : kc == 3 ? std::max(1, cs.n / 8) : kc == 4 ? std::max(1, cs.n / 2) : std::max(1, cs.n - 1);
 		return cs; });
 	rc::check("C20 sampled", [&]() {
+		if (c.shrink_exhausted()) return;
 		Case cs = *genCase;
 		Verdict v = judge_sandboxed(cs);
 		c.st.record(ctext(cs), v);
